@@ -261,3 +261,10 @@ def r2c(cx, rec):
     from rules import C10
     C10.fresh_assignment(cx, rec)
     C10.cancel_clears_state(cx, rec)
+
+
+@TABLE.rule('1b', 'K6', 'the bitfield message places piece i at bit (0x80 >> (i mod 8)) of byte i/8: what is advertised on the wire is what the '
+            'status vector says (shared with C07)', floor=6)
+def r1b(cx, rec):
+    from rules import C07
+    C07.r_bitfield(cx, rec)
